@@ -29,34 +29,23 @@ func runMatrixC06(t *testing.T, protos []string) {
 	sample := ev.EnvInt("VERIF_SAMPLE", 0)
 	var cases []faultCase
 	total := 0
-	add := func(c faultCase) {
-		total++
-		if total%shards != shard {
-			return
-		}
-		if sample > 1 && (total/shards+int(ev.Seed()))%sample != 0 {
-			return
-		}
-		cases = append(cases, c)
-	}
 	for _, run := range c05Configs(protos) {
 		salt := int(ev.Seed() % 1000)
-		for _, c := range enumCells(run, c06Kinds, c06ListKinds, salt, 6) {
-			add(c)
-		}
-		for _, c := range enumCommitCells(run, salt) {
-			add(c)
-		}
+		cells := enumCells(run, c06Kinds, c06ListKinds, salt, 6)
+		cells = append(cells, enumCommitCells(run, salt)...)
 		// crafted relation: the deviator's additive contribution cancels everybody else's
 		for dev := 0; dev < 3; dev++ {
 			switch run.Proto {
 			case "ecdsa-signing":
-				add(faultCase{Run: run, F: faultSpec{Deviator: dev, MsgType: pES + "SignRound3Message", Field: fieldRef{"theta", -1}, Kind: "sum-zero", Recip: -1}})
-				add(faultCase{Run: run, F: faultSpec{Deviator: dev, MsgType: pES + "SignRound9Message", Field: fieldRef{"s", -1}, Kind: "sum-zero", Recip: -1}})
+				cells = append(cells, faultCase{Run: run, F: faultSpec{Deviator: dev, MsgType: pES + "SignRound3Message", Field: fieldRef{"theta", -1}, Kind: "sum-zero", Recip: -1}})
+				cells = append(cells, faultCase{Run: run, F: faultSpec{Deviator: dev, MsgType: pES + "SignRound9Message", Field: fieldRef{"s", -1}, Kind: "sum-zero", Recip: -1}})
 			case "eddsa-signing":
-				add(faultCase{Run: run, F: faultSpec{Deviator: dev, MsgType: pDS + "SignRound3Message", Field: fieldRef{"s", -1}, Kind: "sum-zero", Recip: -1}})
+				cells = append(cells, faultCase{Run: run, F: faultSpec{Deviator: dev, MsgType: pDS + "SignRound3Message", Field: fieldRef{"s", -1}, Kind: "sum-zero", Recip: -1}})
 			}
 		}
+		cells = filterCells(cells)
+		total += len(cells)
+		cases = append(cases, sampleCells(cells, sample, shard, shards)...)
 	}
 	r.Note(fmt.Sprintf("matrix_cells_total_%s", t.Name()), total)
 	ev.Each(t, r, cases, func(c faultCase) ev.Outcome { return runFault(c, "C06") })
@@ -114,7 +103,10 @@ func runC06Route(c c06Route) ev.Outcome {
 		d := s.D
 		h := &sim.Delivery{E: d.E, To: d.To, From: d.From, Bytes: d.Bytes, Bcast: d.Bcast, Tag: "hostile"}
 		n := len(net.Nodes)
-		switch v % 9 {
+		switch v % 10 {
+		case 9: // any small sender index (inside one committee's range, outside the other's)
+			h.From = fakeID((v/10)%(n+2), d.From.KeyInt())
+			kinds["sender-index-any"]++
 		case 0: // sender index beyond every committee
 			h.From = fakeID(n+v%7, d.From.KeyInt())
 			kinds["sender-index-too-big"]++
